@@ -87,6 +87,28 @@ def restore_rules(ctx, RULE: str) -> None:
                      "a path with a stored run id leaves run data unset", p)
         else:
             ctx.ok(RULE, "_try_restore: all paths with stored run id restore run data")
+    # the other direction: has_run() is restored from the stored run id alone, so the store side must *clear* the run id whenever
+    # the engine is stored without an active run - a completed run whose id is kept is resurrected by the next reconnect
+    # (and its next run_started / resent run_stopped stores a second recent-run record)
+    sre = prog.func("openpectus.aggregator.data.repository:RecentEngineRepository.store_recent_engine")
+    ctx.analysed(sre)
+    gs = cfg_of(sre)
+    hr_tests = [n for n in gs.nodes if n.kind == "test" and norm(n.ast).endswith(".has_run()")]
+    inst = "store_recent_engine: without an active run the stored run id is cleared on every path"
+    if not hr_tests:
+        ctx.fail(RULE, sre, sre.node, inst, "the run fields are not decided by has_run()")
+    else:
+        def clears_run_id(n) -> bool:
+            if n.kind != "stmt" or n.ast is None:
+                return False
+            return any(t.attr == "run_id" and isinstance(v, ast.Constant) and v.value is None for t, v, st in assigned_attrs(n.ast))
+        pth = gs.search([(hr_tests[0].id, "F")], lambda n: n.id == gs.exit.id, blocked=clears_run_id, follow_exc=False)
+        if pth is not None:
+            ctx.fail(RULE, sre, hr_tests[0].ast, inst, "a path stores an engine that has no active run and keeps the previous run id: the "
+                     "completed run is taken for active again when the engine reconnects (has_run() is restored from the stored "
+                     "run id alone)", pth)
+        else:
+            ctx.ok(RULE, inst)
     # the restore may be skipped only because nothing is stored: every path that leaves run data unset must leave a test
     # that is exactly `<recent> is not None` / `<recent>.run_id is not None` on its false edge (no further conjunct may
     # narrow the restore: the stored run id alone says that a run was active)
